@@ -10,7 +10,8 @@ use serde::{Deserialize, Serialize};
 use serde_json::Value as J;
 
 pub const KEYS: &[&str] = &["a", "as", "bs", "c", "abc", "$$secret"];
-pub const PERMS: &[&str] = &["", "r *", "w *", "rw a*", "i *s|x c", "rwix *", "r a*,*s|w bs", "x *", "i *", "rwi c"];
+// ("r" and "rwix|w bs": entries that name kinds of access but no pattern grant nothing: there is no pattern a key could match)
+pub const PERMS: &[&str] = &["", "r *", "w *", "rw a*", "i *s|x c", "rwix *", "r a*,*s|w bs", "x *", "i *", "rwi c", "r", "rwix|w bs"];
 
 #[derive(Clone, Debug, Serialize, Deserialize, PartialEq)]
 pub enum Kind {
@@ -119,7 +120,7 @@ pub fn case_strategy() -> impl Strategy<Value = Case> {
         let n = kinds.len();
         let step = prop_oneof![
             12 => (0..n, cmd_strategy()).prop_map(|(s, cmd)| Step::Do { s, cmd }),
-            1 => select(PERMS.to_vec()).prop_map(|p| Step::SetPerms { perms: p.to_string() }),
+            2 => prop_oneof![3 => select(PERMS.to_vec()), 1 => Just("")].prop_map(|p| Step::SetPerms { perms: p.to_string() }),
             1 => Just(Step::Snapshot),
             1 => Just(Step::RemoveBob),
         ];
@@ -143,7 +144,7 @@ fn grants(perms: &str, kind: char, key: &str) -> bool {
         let mut it = entry.splitn(2, ' ');
         let kinds = it.next().unwrap_or("");
         let pats = it.next().unwrap_or("");
-        kinds.contains(kind) && pats.split(',').any(|p| pattern_matches(key, p))
+        kinds.contains(kind) && pats.split(',').filter(|p| !p.is_empty()).any(|p| pattern_matches(key, p))
     })
 }
 
@@ -658,6 +659,27 @@ fn matrix() -> Vec<Case> {
                     Step::Do { s: 0, cmd: Cmd::Keys { pattern: "*".into() } },
                 ];
                 out.push(Case { kinds: vec![Kind::UserBob, Kind::DbToken], bob_perms: "r a*".into(), steps });
+            }
+        }
+    }
+    // the list is removed and written again while bob's session stays open (with and without the removed list having
+    // reached the disk: its key restarts at version 0 or goes on from its tombstone): the session is held to the list
+    // in force, whatever it was granted before
+    for snapshot_first in [false, true] {
+        for new_perms in ["r c", "w bs", "i *s", "rwix c"] {
+            for word in ["get", "get-safe", "set", "set-safe", "remove", "increment", "watch"] {
+                for key in ["a", "bs"] {
+                    let mut steps = vec![Step::Do { s: 0, cmd: Cmd::UseDb { db: "d".into(), right: true } }, Step::Do { s: 0, cmd: Cmd::Data { word: word.into(), key: key.into() } }];
+                    if snapshot_first {
+                        steps.push(Step::Snapshot);
+                    }
+                    steps.push(Step::SetPerms { perms: String::new() });
+                    steps.push(Step::Do { s: 0, cmd: Cmd::Data { word: "get".into(), key: key.into() } });
+                    steps.push(Step::SetPerms { perms: new_perms.to_string() });
+                    steps.push(Step::Do { s: 0, cmd: Cmd::Data { word: word.into(), key: key.into() } });
+                    steps.push(Step::Do { s: 0, cmd: Cmd::Data { word: "get".into(), key: key.into() } });
+                    out.push(Case { kinds: vec![Kind::UserBob], bob_perms: "rwix *".into(), steps });
+                }
             }
         }
     }
